@@ -486,8 +486,9 @@ def correspond(ctx):
     correspond_rdr(ctx)
 
 
-def correspond_rdr(ctx, trunc_cap=None, nmut=None):
-    """the `rdr:<fmt>` streams (shared by C07 and, with a smaller budget, C17)"""
+def correspond_rdr(ctx, trunc_cap=None, nmut=None, report_failures=True):
+    """the `rdr:<fmt>` streams (shared by C07 and, with a smaller budget, C17; C17 leaves the reporting of parsers
+    that do not terminate / inconsistent objects to C07: there they only show as correspondence mismatches)"""
     total_files, total_cases = 0, 0
     with mp.get_context("fork").Pool(min(12, os.cpu_count() or 4), maxtasksperchild=500) as pool:
         for fmt in FORMATS:
@@ -514,7 +515,9 @@ def correspond_rdr(ctx, trunc_cap=None, nmut=None):
                 reqs.append(f"rdr {fmt} {_enc(text)}")
                 outs.append(r["line"])
                 classes.append(f"{fmt}/{label.split('/', 1)[1].split('+')[0]}/{' '.join(r['line'].split(' ')[:2]) if r['line'].startswith('err') else 'ok'}")
-                if r["verdict"] == "timeout":
+                if not report_failures:
+                    pass
+                elif r["verdict"] == "timeout":
                     ntimeout += 1
                     if ntimeout <= 2:
                         ctx.fail(f"does-not-terminate:{fmt}.load_one",
